@@ -276,6 +276,12 @@ func (S05) RunTape(t *sim.Tape, st *sim.Stats, keepLog bool) *sim.Outcome {
 	stored := map[string]*storedInfo{}  // link binary -> info
 	storeStarted := map[string]uint64{} // link binary -> seq at which the first Store producing it was invoked
 	loaded := map[int]datamodel.Node{}  // value id -> a node previously loaded from storage
+	type rawKept struct {
+		b []byte
+		h uint64
+		l string
+	}
+	var keptRaw []rawKept // byte slices LoadRaw / LoadPlusRaw handed out: the caller owns them
 	storedMh := map[string]bool{}
 	var hist []string
 	nontrivial := false
@@ -488,6 +494,9 @@ func (S05) RunTape(t *sim.Tape, st *sim.Stats, keepLog bool) *sim.Outcome {
 			} else if fn != 1 {
 				o.Fail("load-wrong-value", sig+" "+name, "%s returned a nil node with nil error", name)
 			}
+			if res.raw != nil && len(keptRaw) < 24 {
+				keptRaw = append(keptRaw, rawKept{res.raw, sim.HashString(string(res.raw)), tailOf(lb)})
+			}
 			if res.raw != nil {
 				if b, ok := rawGet(l); ok && !bytes.Equal(b, res.raw) {
 					o.Fail("load-wrong-raw", sig+" "+name, "%s returned raw bytes that differ from the bytes in storage", name)
@@ -501,6 +510,12 @@ func (S05) RunTape(t *sim.Tape, st *sim.Stats, keepLog bool) *sim.Outcome {
 	}
 
 	recheckLoaded := func(after string) {
+		for i := range keptRaw {
+			if sim.HashString(string(keptRaw[i].b)) != keptRaw[i].h {
+				o.Fail("returned-raw-bytes-changed", bname0(bname), "the byte slice an earlier LoadRaw/LoadPlusRaw returned for %x changed after %s", keptRaw[i].l, after)
+				keptRaw[i].h = sim.HashString(string(keptRaw[i].b))
+			}
+		}
 		// nodes handed out by earlier loads must still hold the stored value (they are kept and re-used as Store inputs)
 		for vi, n := range loaded {
 			c := codecOf(vproto[vi])
@@ -557,6 +572,13 @@ func (S05) RunTape(t *sim.Tape, st *sim.Stats, keepLog bool) *sim.Outcome {
 		st.Sample(map[string]interface{}{"backend": bname, "private_registry": private, "prototypes": ps, "history": hist})
 	}
 	return o
+}
+
+func tailOf(s string) string {
+	if len(s) > 6 {
+		return s[len(s)-6:]
+	}
+	return s
 }
 
 func bname0(b string) string {
